@@ -1,10 +1,119 @@
-import ZixModel.Model.Env
-/-! # C16 — environment expansion -/
+import ZixModel.Spec.Env
+import ZixModel.Lemmas.Env
+/-! # C16 — environment expansion substitutes exactly the references and copies the rest
+
+Property theorems only; helper lemmas live in `ZixModel/Lemmas/Env.lean`.
+`expand` (Model/Env.lean) is the C scanner with its indices and a fuel argument;
+`spec` (Spec/Env.lean) is the token-level specification. -/
 namespace Zix.C16
 open Zix.Env
 
 /-- The empty string expands to the empty string (not to NULL). -/
 theorem expand_empty (env : List (List Nat)) : expand env [] = some [] := by
   simp [expand, loop, at']
+
+/-- The scanner terminates on every NUL-free string in every environment: the fuel
+`length + 1` that `expand` passes always suffices. -/
+theorem expand_terminates (env : List (List Nat)) (str : List Nat) (h : 0 ∉ str) :
+    (expand env str).isSome := by
+  have := loop_eq env str h (str.length + 1) 0 0 [] (Nat.le_refl _) (Nat.zero_le _) (by omega)
+  simp [expand, this]
+
+/-- The scanner computes exactly the specified expansion, for every string and environment. -/
+theorem expand_eq_spec (env : List (List Nat)) (str : List Nat) (h : 0 ∉ str) :
+    expand env str = some (spec env str) := by
+  have := loop_eq env str h (str.length + 1) 0 0 [] (Nat.le_refl _) (Nat.zero_le _) (by omega)
+  simpa [expand] using this
+
+/-! ## what the specification says, token by token -/
+
+/-- Text without `$` and `~` is copied unchanged. -/
+theorem spec_plain (env : List (List Nat)) (str : List Nat) (h1 : 36 ∉ str) (h2 : 126 ∉ str) :
+    spec env str = str := by
+  induction str with
+  | nil => simp [spec]
+  | cons c rest ih =>
+    have hc1 : c ≠ 36 := fun hc => h1 (by simp [hc])
+    have hc2 : c ≠ 126 := fun hc => h2 (by simp [hc])
+    rw [spec]
+    simp only [hc1, hc2, false_and, if_false]
+    rw [ih (fun hm => h1 (List.mem_cons_of_mem _ hm)) (fun hm => h2 (List.mem_cons_of_mem _ hm))]
+
+/-- A `$NAME` reference whose variable is set is replaced by the value, verbatim (the value is
+not rescanned), and scanning continues after the longest name. -/
+theorem spec_ref_set (env : List (List Nat)) (name post v : List Nat)
+    (hne : name ≠ []) (hn : ∀ c ∈ name, isVarChar c = true) (hp : isVarChar (post.headD 0) = false)
+    (hv : findEnv env name = some v) :
+    spec env (36 :: (name ++ post)) = v ++ spec env post := by
+  obtain ⟨ht, hdw⟩ := takeWhile_append_of_headD (p := isVarChar) name post hn hp
+  have hhd : isVarChar ((name ++ post).headD 0) = true := by
+    cases name with
+    | nil => exact absurd rfl hne
+    | cons x xs => exact hn x (by simp)
+  rw [spec]
+  simp only [hhd, and_self, if_true, ht, hdw]
+  simp [varText, hv]
+
+/-- A reference to an unset variable is left as written. -/
+theorem spec_ref_unset (env : List (List Nat)) (name post : List Nat)
+    (hne : name ≠ []) (hn : ∀ c ∈ name, isVarChar c = true) (hp : isVarChar (post.headD 0) = false)
+    (hv : findEnv env name = none) :
+    spec env (36 :: (name ++ post)) = 36 :: name ++ spec env post := by
+  obtain ⟨ht, hdw⟩ := takeWhile_append_of_headD (p := isVarChar) name post hn hp
+  have hhd : isVarChar ((name ++ post).headD 0) = true := by
+    cases name with
+    | nil => exact absurd rfl hne
+    | cons x xs => exact hn x (by simp)
+  rw [spec]
+  simp only [hhd, and_self, if_true, ht, hdw]
+  simp [varText, hv]
+
+/-- A `$` not followed by a name character (lowercase, brace, end of string …) is copied. -/
+theorem spec_dollar_literal (env : List (List Nat)) (post : List Nat) (hp : isVarChar (post.headD 0) = false) :
+    spec env (36 :: post) = 36 :: spec env post := by
+  rw [spec]
+  simp only [hp, Bool.false_eq_true, and_false, if_false]
+  simp
+
+/-- A `~` followed by the end of the string, `/` or `:` is replaced by HOME's value when HOME is set. -/
+theorem spec_tilde_expands (env : List (List Nat)) (post v : List Nat)
+    (hp : post = [] ∨ post.headD 0 = 47 ∨ post.headD 0 = 58)
+    (hv : findEnv env [72, 79, 77, 69] = some v) :
+    spec env (126 :: post) = v ++ spec env post := by
+  have hd : isPathDelim (post.headD 0) = true := by
+    rcases hp with hp | hp | hp
+    · subst hp; decide
+    · rw [hp]; decide
+    · rw [hp]; decide
+  rw [spec]
+  simp only [hd]
+  simp [varText, homeRef, hv]
+
+/-- A `~` directly followed by any other character is never expanded. -/
+theorem spec_tilde_before_other (env : List (List Nat)) (c : Nat) (post : List Nat)
+    (hc : c ≠ 47 ∧ c ≠ 58 ∧ c ≠ 0) :
+    spec env (126 :: c :: post) = 126 :: spec env (c :: post) := by
+  have hd : isPathDelim c = false := by
+    simp [isPathDelim, hc.1, hc.2.1, hc.2.2]
+  rw [spec]
+  simp [hd]
+
+/-- `find_env` returns the value of the first `NAME=value` entry with exactly that name. -/
+theorem findEnv_first (pre post : List (List Nat)) (name v : List Nat) (hname : 61 ∉ name)
+    (hpre : ∀ e ∈ pre, ¬(e.take name.length = name ∧ at' e name.length = 61)) :
+    findEnv (pre ++ (name ++ 61 :: v) :: post) name = some v := by
+  have _ := hname  -- not needed: the entry `name ++ '=' :: v` matches whatever `name` contains
+  induction pre with
+  | nil =>
+    simp [findEnv, at']
+  | cons e rest ih =>
+    have he := hpre e (by simp)
+    simp only [List.cons_append, findEnv, he, if_false]
+    exact ih (fun e' he' => hpre e' (by simp [he']))
+
+/-! ## non-vacuity -/
+-- "a$X:~/b$Y" with X=1, HOME=/h, Y unset
+example : expand [[88, 61, 49], [72, 79, 77, 69, 61, 47, 104]] [97, 36, 88, 58, 126, 47, 98, 36, 89]
+    = some [97, 49, 58, 47, 104, 47, 98, 36, 89] := by decide
 
 end Zix.C16
